@@ -392,8 +392,9 @@ func (w *World) opAcct(a []string) string {
 	return "acct ok"
 }
 
+// epoch <shards> <n> [timestamp]: the notifier of each selected shard confirms epoch n (with the given timestamp, default 0).
 func (w *World) opEpoch(a []string) string {
-	if len(a) != 2 {
+	if len(a) != 2 && len(a) != 3 {
 		return obsBadOp
 	}
 	shs, ok := w.shardsArg(a[0])
@@ -404,8 +405,14 @@ func (w *World) opEpoch(a []string) string {
 	if !ok || n > 0xFFFFFFFF {
 		return obsBadOp
 	}
+	ts := uint64(0)
+	if len(a) == 3 {
+		if ts, ok = parseU64(a[2]); !ok {
+			return obsBadOp
+		}
+	}
 	for _, sh := range shs {
-		sh.notifier.confirm(uint32(n))
+		sh.notifier.confirm(uint32(n), ts)
 	}
 	return "epoch ok"
 }
